@@ -1019,3 +1019,33 @@ func j3(w *World, r *Report) {
 		r.Check(ok, "J-3", "BlockMarker.CountInWindow", "counts the marked heights h with h0 <= h <= h1", "CountInWindow does not count the marks inside [h0, h1]", fnSite(w, cw))
 	}
 }
+
+// hostOfCall finds a call whose canonical form (in terms of the root function)
+// satisfies match, in root itself or in a static module callee (two levels,
+// methods on the same receiver keep `recv`). It returns the function that
+// contains the call, the call, and the call site in root through which the host
+// is reached (nil when host == root).
+func (w *World) hostOfCall(root *ssa.Function, match func(string) bool, depth int) (*ssa.Function, ssa.CallInstruction, ssa.CallInstruction) {
+	for _, c := range CallsIn(root) {
+		if match(w.canonCall(c.Common(), 0)) {
+			return root, c, nil
+		}
+	}
+	if depth > 1 {
+		return nil, nil, nil
+	}
+	for _, c := range CallsIn(root) {
+		cal := c.Common().StaticCallee()
+		if cal == nil || !w.InModule(cal) || cal.Blocks == nil || cal == root || len(cal.Params) != len(c.Common().Args) {
+			continue
+		}
+		// only helpers that see the same receiver under the same name
+		if len(cal.Params) == 0 || w.Canon(c.Common().Args[0]) != "recv" || cal.Signature.Recv() == nil {
+			continue
+		}
+		if h, in, _ := w.hostOfCall(cal, match, depth+1); h != nil {
+			return h, in, c
+		}
+	}
+	return nil, nil, nil
+}
